@@ -1,7 +1,9 @@
 """C16 — Pseudo-Boolean expression algebra preserves integer semantics.
 
-Correspondence: random Python expression trees over `Literal` / `Term` / `Expr` / `Ineq` (operators `-x`, `*`, `+`, `-`,
-the five comparisons, reflected forms, `str` / `int` / `float` operands, direct `Ineq(a, b, op)` calls) are evaluated
+Correspondence: random Python expression trees over `Literal` / `Term` / `Expr` / `Ineq` (operators `-x`, `~x`, `+x`, `*`,
+`+`, `-`, the five comparisons, reflected forms, `str` / `int` / `float` operands on either side, the builtin `sum()`
+starting from the int 0 or from a given start value, direct `Ineq(a, b, op)` calls with any operand kinds, `Ineq` objects
+as operands of every operator, `tostr()`) are evaluated
 by the real classes of `tools/rect/pseudobool.py` and by the Lean model (`FV/Model/PB.lean`, `Tree.run`); the results
 (`Expr.c`, the ordered `Expr.t`, `Ineq.lhs/rhs/op`, or the exception class) are compared exactly.
 Spec on implementation: under every assignment of the (≤ 6) variables of the tree the value of the object the
@@ -27,7 +29,11 @@ DRIVERS = ["drv_pb"]
 TRUSTED = [
     "Lean 4.33 kernel; axioms ⊆ {propext, Classical.choice, Quot.sound} (core Lean only, no Mathlib)",
     "hand-written model FV/Model/PB.lean — fidelity to tools/rect/pseudobool.py checked by this correspondence run, not proved",
-    "Python operator dispatch (which __op__/__rop__ is called) is modelled by hand in pyAdd/pySub/pyMul/pyCmp",
+    "Python operator dispatch (which __op__/__rop__ is called, what a missing overload raises) is modelled by hand in "
+    "pyNeg/pyInv/pyPos/pyAdd/pySub/pyMul/pyCmp/pyIneq for every pair of operand kinds involving a class of the module; outside the "
+    "model (err:Unmodelled, never generated): bool operands, str·Literal / Literal·str (int(name)), float arithmetic between numbers, "
+    "Ineq == Ineq (object identity)",
+    "builtin sum(items, start) is modelled as the left fold of + from start (CPython's fast paths for exact ints / floats compute the same)",
     "harness (Python) and compiled Lean driver: parsing, printing, comparison",
 ]
 
@@ -43,8 +49,14 @@ def kind(t, prog=None) -> str:
         return kind(prog[t[1]], prog)
     if h in ("S", "N", "L"):
         return h
-    if h == "neg":
+    if h in ("neg", "pos"):
         return kind(t[1], prog)
+    if h == "inv":
+        return "N"
+    if h in ("sum", "sumfrom"):
+        if h == "sumfrom" and len(t) == 2:
+            return kind(t[1], prog)       # no items: the start object itself
+        return "N" if all(kind(x, prog) == "N" for x in t[1:]) else "E"
     if h == "mul":
         ka, kb = kind(t[1], prog), kind(t[2], prog)
         if "E" in (ka, kb):
@@ -70,8 +82,12 @@ def tokens(t, prog=None) -> str:
         return f"N f {q.numerator} {q.denominator}"
     if h == "L":
         return f"L {t[1]} {t[2]}"
-    if h == "neg":
-        return "neg " + tokens(t[1], prog)
+    if h in ("neg", "inv", "pos"):
+        return h + " " + tokens(t[1], prog)
+    if h == "sum":
+        return f"sum {len(t) - 1}" + "".join(" " + tokens(x, prog) for x in t[1:])
+    if h == "sumfrom":
+        return f"sumfrom {tokens(t[1], prog)} {len(t) - 2}" + "".join(" " + tokens(x, prog) for x in t[2:])
     if h in ("mul", "add", "sub"):
         return f"{h} {tokens(t[1], prog)} {tokens(t[2], prog)}"
     if h in ("cmp", "ineq"):
@@ -115,6 +131,14 @@ def py_eval(t, env=None):
         return pb.Literal(t[1], bool(t[2]))
     if h == "neg":
         return -py_eval(t[1], env)
+    if h == "inv":
+        return ~py_eval(t[1], env)
+    if h == "pos":
+        return +py_eval(t[1], env)
+    if h == "sum":
+        return sum([py_eval(x, env) for x in t[1:]])
+    if h == "sumfrom":
+        return sum([py_eval(x, env) for x in t[2:]], py_eval(t[1], env))
     if h == "mul":
         return py_eval(t[1], env) * py_eval(t[2], env)
     if h == "add":
@@ -148,6 +172,12 @@ def den(t, sig, prog=None) -> int | bool:
     if h == "neg":
         x = den(t[1], sig, prog)
         return 1 - x if kind(t[1], prog) == "L" else -x
+    if h == "inv":
+        return -den(t[1], sig, prog) - 1
+    if h == "pos":
+        return den(t[1], sig, prog)
+    if h in ("sum", "sumfrom"):
+        return sum(den(x, sig, prog) for x in t[1:])
     if h == "mul":
         return den(t[1], sig, prog) * den(t[2], sig, prog)
     if h == "add":
@@ -231,6 +261,12 @@ def spec_on_impl(ctx: Ctx, t, o, inp, prog=None, when="") -> bool:
     """False if a failure was reported"""
     vs = tree_vars(t, None, prog)
     sz = size(t) if prog is None else sum(size(x) for x in prog)
+    if isinstance(o, bool):
+        # the only bool the classes ever answer: `Ineq == str/number` (no `__eq__` on Ineq → identity → False)
+        if o is not False:
+            ctx.spec_fail("ineq_eq_is_false" + when, inp, {"built": repr(o)}, size=sz)
+            return False
+        return True
     if isinstance(o, pb.Expr) or isinstance(o, pb.Ineq):
         prob = normal_form_problem(o if isinstance(o, pb.Expr) else o.lhs)
         if prob:
@@ -259,6 +295,10 @@ def gen_num(rng):
     if r < 0.92:
         return ["N", "f", rng.choice([2.0, -1.0, 3.0, 0.0, -0.0, 1.0, -2.0])]
     return ["N", "f", rng.choice([2.5, -1.5, 0.5, -0.5, 0.999, -2.75, 1e3 + 0.25, 3.999999])]
+
+
+def gen_int(rng):
+    return ["N", "i", rng.choice([-3, -2, -1, 0, 0, 1, 2, 5, 2 ** 40])]
 
 
 POOL = None   # during program generation: kind -> indices of earlier statements of that kind
@@ -325,8 +365,10 @@ def gen_expr(rng, nv, depth):
     if depth <= 0:
         a = gen_lit(rng, nv) if rng.random() < 0.5 else gen_term(rng, nv, 0)
         return ["add", a, gen_operand(rng, nv, 0)]
-    if r < 0.35:
+    if r < 0.30:
         return ["add", gen_pb(rng, nv, depth), gen_operand(rng, nv, depth)]
+    if r < 0.35:
+        return gen_sum(rng, nv, depth)
     if r < 0.45:   # reflected add
         left = gen_num(rng) if rng.random() < 0.7 else ["S", rng.choice(VARS[:nv])]
         right = gen_lit(rng, nv) if rng.random() < 0.5 else gen_term(rng, nv, depth - 1)
@@ -337,8 +379,25 @@ def gen_expr(rng, nv, depth):
     return ["mul", e, n] if rng.random() < 0.6 else ["mul", n, e]
 
 
+def gen_sum(rng, nv, depth):
+    """builtin sum(): from the int 0 (leading numbers, then a Literal / Term picks up through __radd__, then anything
+    Expr.__add__ accepts) or from a start value"""
+    if rng.random() < 0.7:
+        items = [gen_int(rng) for _ in range(rng.choice([0, 0, 0, 1, 2]))]   # int + int only (no float arithmetic)
+        items.append(gen_lit(rng, nv) if rng.random() < 0.5 else gen_term(rng, nv, depth - 1))
+        items += [gen_operand(rng, nv, depth - 1) for _ in range(rng.randint(0, 4))]
+        return ["sum"] + items
+    start = gen_pb(rng, nv, depth - 1)
+    return ["sumfrom", start] + [gen_operand(rng, nv, depth - 1) for _ in range(rng.randint(1, 4))]
+
+
 def gen_ineq(rng, nv, depth):
     r = rng.random()
+    if r < 0.08:   # the constructor with any AddTerm on the other side (the Expr must end up on the left of `-`)
+        e, x = gen_expr(rng, nv, depth - 1), gen_operand(rng, nv, depth - 1)
+        if rng.random() < 0.6:
+            return ["ineq", rng.choice([">=", ">", "=", "=="]), e, x]
+        return ["ineq", rng.choice(["<=", "<"]), x, e]
     if r < 0.6:
         return ["cmp", rng.choice(OPS), gen_pb(rng, nv, depth), gen_operand(rng, nv, depth)]
     if r < 0.75:
@@ -349,7 +408,11 @@ def gen_ineq(rng, nv, depth):
 
 def gen_bad(rng, nv, depth):
     """operand combinations the classes reject (exception class is compared)"""
-    k = rng.randrange(8)
+    k = rng.randrange(24)
+    if k >= 22:
+        k = 8
+    if k >= 8:
+        return gen_bad2(rng, nv, depth, k)
     if k == 0:
         return ["mul", gen_lit(rng, nv), gen_lit(rng, nv)]
     if k == 1:
@@ -367,12 +430,54 @@ def gen_bad(rng, nv, depth):
     return ["cmp", rng.choice(OPS), gen_term(rng, nv, 1), gen_ineq(rng, nv, 0)]
 
 
+def gen_bad2(rng, nv, depth, k):
+    """operators the classes do not define, `Ineq` objects as operands, refused constructor arguments"""
+    q = gen_ineq(rng, nv, 0)
+    pbx = gen_pb(rng, nv, 1)
+    num = gen_num(rng)
+    if k == 8:      # ~x, +x
+        return [rng.choice(["inv", "pos"]), rng.choice([gen_lit(rng, nv), gen_term(rng, nv, 0), pbx, q, num, gen_expr(rng, nv, 1)])]
+    if k == 9:      # -Ineq, -str
+        return ["neg", rng.choice([q, ["S", rng.choice(VARS[:nv])]])]
+    if k == 10:     # reflected subtraction (nothing defines __rsub__), Term / Literal minus anything
+        return ["sub", rng.choice([num, ["S", rng.choice(VARS[:nv])], gen_term(rng, nv, 0)]), pbx]
+    if k == 11:     # Ineq on either side of + / -
+        a, b = (q, rng.choice([pbx, num, q])) if rng.random() < 0.5 else (rng.choice([pbx, num]), q)
+        return [rng.choice(["add", "sub"]), a, b]
+    if k == 12:     # Ineq on either side of *
+        a, b = (q, rng.choice([pbx, num, q, ["S", "a"]])) if rng.random() < 0.5 else (rng.choice([pbx, num, ["S", "a"]]), q)
+        return ["mul", a, b]
+    if k == 13:     # Ineq compared with anything (== with a str / number answers False)
+        a, b = (q, rng.choice([pbx, num, ["S", "a"]])) if rng.random() < 0.5 else (rng.choice([num, ["S", "a"]]), q)
+        return ["cmp", rng.choice(OPS + ["="]), a, b]
+    if k == 14:     # ordering between two Ineq objects
+        return ["cmp", rng.choice([">=", "<=", ">", "<"]), q, gen_ineq(rng, nv, 0)]
+    if k == 15:     # Literal / Term times an expression
+        return ["mul", rng.choice([gen_lit(rng, nv), gen_term(rng, nv, 0)]), gen_expr(rng, nv, 1)]
+    if k == 16:     # Expr times a str, str times Expr
+        e, sv = gen_expr(rng, nv, 1), ["S", rng.choice(VARS[:nv])]
+        return ["mul", e, sv] if rng.random() < 0.5 else ["mul", sv, e]
+    if k == 17:     # sum() whose first non-number item is an Expr / a str: `0 + Expr` has no __radd__
+        return ["sum"] + [gen_int(rng) for _ in range(rng.randint(0, 2))] + \
+               [rng.choice([gen_expr(rng, nv, 1), ["S", rng.choice(VARS[:nv])], q])] + [gen_operand(rng, nv, 0)]
+    if k == 18:     # sum() with an Ineq among the items / as start value
+        return rng.choice([["sum", gen_lit(rng, nv), q], ["sumfrom", q, gen_lit(rng, nv)], ["sumfrom", pbx, gen_lit(rng, nv), q]])
+    if k == 19:     # Ineq(...) whose left side (after the swap of <= / <) is not an Expr
+        e, x = gen_expr(rng, nv, 1), rng.choice([gen_lit(rng, nv), gen_term(rng, nv, 0), ["S", rng.choice(VARS[:nv])], q])
+        if rng.random() < 0.5:
+            return ["ineq", rng.choice(["<=", "<"]), e, x]
+        return ["ineq", rng.choice([">=", ">", "=", "=="]), x, e]
+    if k == 20:     # Ineq(...) with an Ineq argument / an invalid operator and bad arguments at once
+        return ["ineq", rng.choice(OPSTR + ["!="]), gen_expr(rng, nv, 1), q]
+    return ["ineq", rng.choice(["<=", "<", ">="]), rng.choice([num, pbx]), rng.choice([gen_lit(rng, nv), q])]
+
+
 def gen_tree(rng, max_depth):
     """(tree, well-formed?) — a well-formed tree only uses operand combinations the classes support"""
     nv = rng.choice([1, 2, 2, 3, 3, 3, 4, 4, 5, 6])
     depth = rng.randint(1, max_depth)
     r = rng.random()
-    if r < 0.04:
+    if r < 0.10:
         return gen_bad(rng, nv, depth), False
     if r < 0.45:
         return gen_expr(rng, nv, depth), True
@@ -533,6 +638,14 @@ def one(ctx: Ctx, t, reqs, todo, stream="tree", wellformed=True) -> None:
     todo.append((inp, impl, size(t)))
     if obj is not None:
         spec_on_impl(ctx, t, obj, inp)
+    if isinstance(obj, (pb.Literal, pb.Term, pb.Expr, pb.Ineq)):
+        try:
+            txt = obj.tostr()
+        except Exception as e:
+            txt = "err:" + type(e).__name__
+            ctx.spec_fail("operation-raised", inp, {"tostr raised": repr(e)[:200]}, size=size(t))
+        reqs.append("P tostr " + tokens(t))
+        todo.append((dict(inp, tostr=True), txt, size(t)))
     ctx.case(stream, tokens(t), nontrivial=size(t) >= 4 and bool(tree_vars(t)),
              sample={"tree": tokens(t), "impl": impl})
     ctx.count("kind:" + (impl.split()[0] if not impl.startswith("err") else impl))
@@ -542,14 +655,16 @@ def one(ctx: Ctx, t, reqs, todo, stream="tree", wellformed=True) -> None:
 def compare(ctx: Ctx, todo, replies) -> None:
     for (inp, impl, sz), model in zip(todo, replies):
         if impl != model:
-            ctx.disagree("program" if "program" in inp else "tree", inp, impl, model, size=sz)
+            ctx.disagree("program" if "program" in inp else "tostr" if inp.get("tostr") else "tree", inp, impl, model, size=sz)
 
 
 def run(ctx: Ctx) -> None:
     ctx.rule = ("random expression trees (depth ≤ 4 quick / ≤ 6 thorough) over ≤ 6 variables: literals of both polarities, "
                 "-x, int/float multiples (incl. 0, negatives, non-integral floats → int() truncation), +, - with str / number / "
                 "literal / term / expression operands, reflected + and comparisons, the five comparison operators and direct "
-                "Ineq(a, b, op) calls with all six operator strings; 4% rejected combinations (exception class compared); "
+                "Ineq(a, b, op) calls with all six operator strings; ~x, +x, sum() from 0 / from a start value, Ineq(E, x, op) with any operand kind; 10% rejected combinations (operators no class "
+                "defines, reflected subtraction, Ineq objects as operands of every operator, refused constructor arguments; exception class "
+                "compared); tostr() of every built object compared; "
                 "non-trivial = at least 4 tree nodes and one variable; distinct = distinct token string; "
                 "program stream: 2–7 statements, each a small tree whose operands are, with probability 0.45–0.6 per position, "
                 "the OBJECT built by an earlier statement; 15% of the statements compare / subtract an earlier expression "
